@@ -64,7 +64,7 @@ class World:
         self.handles = {}  # bucket id -> Bucket object obtained at creation (may go stale)
         self.probes = collections.Counter()
         self.view = {}  # bucket id -> {"meta":..., "events":[(id,ts,dur,data)...] sorted by id}
-        self.memory_storage = None  # survives "new Datastore object" on the memory backend
+        self.stale = {}  # bucket id -> Bucket handle of a bucket deleted since
 
     # ------------------------------------------------------------------ store lifecycle
     def open(self):
@@ -82,6 +82,7 @@ class World:
         else:
             self.ds = Datastore(PeeweeStorage, testing=True, filepath=self.path)
         self.handles = {}
+        self.stale = {}
         return self.ds
 
     def _release(self):
@@ -244,6 +245,7 @@ class World:
         )
         if out["exc"] is None:
             self.handles[b] = out["ret"]
+            self.stale.pop(b, None)
         return out
 
     def op_update(self, s):
@@ -253,7 +255,24 @@ class World:
         return self._call(self.ds.update_bucket, s["b"], **f)
 
     def op_delete_bucket(self, s):
-        return self._call(self.ds.delete_bucket, s["b"])
+        out = self._call(self.ds.delete_bucket, s["b"])
+        if out["exc"] is None and s["b"] in self.handles:
+            self.stale[s["b"]] = self.handles.pop(s["b"])
+        return out
+
+    def op_insert_stale(self, s):
+        """Insert through a Bucket handle whose bucket has been deleted since (expected: rejected)."""
+        b = s["b"]
+        h = self.stale.get(b)
+        if h is None or b in self.view:
+            return {"skipped": "no stale handle"}
+        if "evs" in s:
+            evs = [mk_event(it["ev"]) for it in s["evs"]]
+            out = self._call(h.insert, evs)
+        else:
+            out = self._call(h.insert, mk_event(s["ev"]))
+        self.probes["insert_through_stale_handle"] += 1
+        return out
 
     def op_lookup(self, s):
         return self._call(self.ds.__getitem__, s["b"])
